@@ -185,7 +185,8 @@ KF_C03_6_Edge(X, K, e) ==
   /\ LET x == UnitAt(X, e.s[1], e.s[2])
      IN  /\ x.k = "ret" /\ x.fn # <<>>
          /\ \E b \in Range(AllBlocks(X.t.pre)) :
-               /\ WholeDeleted(X.t.pre, X.t.reqs, b.u) /\ ~ToProxy(X.t.reqs, b.u)
+               /\ (WholeDeleted(X.t.pre, X.t.reqs, b.u) \/ AllUnitsDeleted(X.t.pre, X.t.reqs, b.u))
+               /\ ~ToProxy(X.t.reqs, b.u)
                /\ LastKind(b) = "call"
                /\ LET cu == b.units[Len(b.units)]
                       tb == {c \in Range(AllBlocks(X.t.pre)) : cu.tg \in Range(c.ss)}
